@@ -9,6 +9,7 @@ verus! {
 //@ include prelude/highbits.rs
 //@ include prelude/bitval.rs
 //@ include prelude/radixval.rs
+//@ include prelude/shiftdigit.rs
 pub mod u {
 use super::*;
 
@@ -93,6 +94,44 @@ pub proof fn lemma_fold_digit(acc: u64, c: u8, bits: u8, n: nat)
     assert(((acc << b) | cc) == add(acc << b, cc)) by (bit_vector) requires 1 <= b <= 8, cc < (1u64 << b);
     assert((acc as nat) * p2(bn) + (c as nat) < 0x1_0000_0000_0000_0000) by (nonlinear_arith)
         requires (acc as nat) + 1 <= p2(bn * n), p2(bn * n) * p2(bn) <= 0x1_0000_0000_0000_0000, (c as nat) < p2(bn);
+}
+
+
+/// dropping zero digits from the top keeps the value
+pub proof fn lemma_valb_drop_zero(s: Seq<u8>, bits: nat)
+    requires s.len() > 0, s[s.len() - 1] == 0
+    ensures valb(s.drop_last(), bits, (s.len() - 1) as nat) == valb(s, bits, s.len())
+{
+    lemma_valb_ext(s.drop_last(), s, bits, (s.len() - 1) as nat);
+    assert(0 * p2(bits * ((s.len() - 1) as nat)) == 0) by (nonlinear_arith);
+}
+
+/// the digit taken from a 64-bit window that may have lost high bits: window == T mod 2^64
+pub proof fn lemma_take_digit_trunc(tt: nat, r: u64, h: nat, bits: u8)
+    requires 1 <= bits <= 8, tt == (r as nat) + h * p2(64)
+    ensures ((r & (((1u64 << bits) - 1) as u64)) as nat) == tt % p2(bits as nat), (r & (((1u64 << bits) - 1) as u64)) < 256,
+        ((r >> bits) as nat) == (r as nat) / p2(bits as nat),
+{
+    let b = bits as u64;
+    vstd::arithmetic::power2::lemma2_to64();
+    vstd::bits::lemma_u64_shr_is_div(r, b);
+    vstd::bits::lemma_u64_low_bits_mask_is_mod(r, bits as nat);
+    assert(vstd::bits::low_bits_mask(bits as nat) == p2(bits as nat) - 1) by { reveal(vstd::bits::low_bits_mask); }
+    assert(1 * p2(b as nat) <= u64::MAX) by { vstd::arithmetic::power2::lemma_pow2_strictly_increases(b as nat, 64); }
+    vstd::bits::lemma_u64_shl_is_mul(1u64, b);
+    assert((r & (((1u64 << b) - 1) as u64)) < 256) by (bit_vector) requires 1 <= b <= 8;
+    lemma_low_bits_of_trunc(tt, r as nat, h, bits as nat);
+}
+
+/// a < b * c  ==>  a / b < c
+pub proof fn lemma_div_upper_(a: nat, b: nat, c: nat)
+    requires b > 0, a < b * c
+    ensures a / b < c
+{
+    vstd::arithmetic::div_mod::lemma_fundamental_div_mod(a as int, b as int);
+    vstd::arithmetic::div_mod::lemma_mod_bound(a as int, b as int);
+    let q = a / b;
+    if q >= c { assert(b * q >= b * c) by (nonlinear_arith) requires q >= c; }
 }
 
 /// appending one digit at position n
@@ -375,6 +414,356 @@ pub(super) fn from_bitwise_digits_le(v: &[u8], bits: u8) -> /*+*/(res: /*-*/BigU
         }
 //+}
         out__.push(acc) ; i__ = e__ ; } out__ };
+
+    biguint_from_vec(data)
+}
+//@ end
+
+//@ extract src/biguint/convert.rs :: fn to_inexact_bitwise_digits_le rules=R0,R14,R12m,R10d,R12n props=C06,C14
+fn to_inexact_bitwise_digits_le(u: &BigUint, bits: u8) -> /*+*/(res: /*-*/Vec<u8>/*+*/)/*-*/
+//+{
+    requires u.wf(), u.v() != 0, 1 <= bits <= 8, 64int % (bits as int) != 0
+    ensures res@.len() >= 1, valb(res@, bits as nat, res@.len()) == u.v(),
+        forall|i: int| 0 <= i < res@.len() ==> (#[trigger] res@[i] as nat) < p2(bits as nat),
+        res@[res@.len() - 1] != 0,
+        forall|i: int| 0 <= i < res@.len() ==> (#[trigger] res@[i] as u32) < (1u32 << bits),
+//+}
+{
+
+//+{
+    let ghost data = u.data@;
+    let ghost bn = bits as nat;
+    proof {
+        vstd::arithmetic::power2::lemma2_to64();
+        let b = bits as u64;
+        assert(1 * p2(b as nat) <= u64::MAX) by { vstd::arithmetic::power2::lemma_pow2_strictly_increases(b as nat, 64); }
+        vstd::bits::lemma_u64_shl_is_mul(1u64, b);
+        assert(bits >= 3) by { if bits == 1 { assert(64int % 1 == 0); } if bits == 2 { assert(64int % 2 == 0); } }
+        assert(bn * 0 == 0) by (nonlinear_arith);
+        assert(0nat / 1 == 0 && 0nat % 1 == 0) by (nonlinear_arith);
+    }
+//+}
+    let mask: BigDigit = (1 << bits) - 1;
+    let digits = __cap_hint(u.bits(), u64::from(bits));
+    let mut res = Vec::with_capacity(digits);
+
+    let mut r = 0;
+    let mut rbits = 0;
+
+    { let mut i__ = 0 ; while i__ < u.data.len()
+//+{
+        invariant
+            data == u.data@, 3 <= bits <= 8, bn == bits as nat, mask == (((1u64 << bits) - 1) as u64), i__ <= data.len(),
+            rbits < bits, rbits as nat + bn * res@.len() == 64 * (i__ as nat),
+            r as nat == valp(data, i__ as nat) / p2(bn * res@.len()),
+            (r as nat) < p2(rbits as nat),
+            valb(res@, bn, res@.len()) == valp(data, i__ as nat) % p2(bn * res@.len()),
+            forall|j: int| 0 <= j < res@.len() ==> (#[trigger] res@[j] as nat) < p2(bn),
+        decreases data.len() - i__
+//+}
+    { let c = &u.data[i__] ; i__ += 1 ;
+//+{
+        let ghost iv = (i__ - 1) as nat;
+        let ghost cc = *c;
+        let ghost k = rbits as nat;
+        let ghost r_old = r;
+        let ghost n0 = res@.len();
+        let ghost uu = valp(data, iv);
+        let ghost u1 = valp(data, iv + 1);
+        let ghost hi: nat = if k == 0 { 0 } else { (cc >> ((64 - rbits) as u64)) as nat };
+        proof {
+            vstd::arithmetic::power2::lemma2_to64();
+            lemma_pw_p2_(iv);
+            assert(u1 == uu + (cc as nat) * pw(iv));
+            assert(64 * iv == bn * n0 + k);
+            lemma_add_high(uu, cc as nat, bn * n0, k);
+            // window after the OR: r_new + hi * 2^64 == r_old + c * 2^k
+            if k > 0 {
+                let kk = rbits as u64;
+                vstd::arithmetic::power2::lemma_pow2_strictly_increases(k, 64);
+                assert(1 * p2(kk as nat) <= u64::MAX);
+                vstd::bits::lemma_u64_shl_is_mul(1u64, kk);
+                lemma_shl_digit(cc, kk, r_old);
+                assert((r_old | (cc << kk)) == ((cc << kk) | r_old)) by (bit_vector);
+            } else {
+                assert(r_old == 0);
+                assert(cc << 0u8 == cc) by (bit_vector);
+                assert((0u64 | cc) == cc) by (bit_vector);
+                assert((cc as nat) * 1 == cc as nat) by (nonlinear_arith);
+            }
+        }
+//+}
+        r |= *c << rbits;
+        rbits += big_digit::BITS;
+//+{
+        proof {
+            assert((r as nat) + hi * p2(64) == (r_old as nat) + (cc as nat) * p2(k));
+        }
+//+}
+
+        while rbits >= bits
+//+{
+            invariant
+                3 <= bits <= 8, bn == bits as nat, mask == (((1u64 << bits) - 1) as u64), k < bn, n0 <= res@.len(),
+                rbits as nat + bn * res@.len() == 64 * (iv + 1), rbits <= 64 + k,
+                u1 == valp(data, iv + 1),
+                rbits <= 64 ==> r as nat == u1 / p2(bn * res@.len()),
+                rbits > 64 ==> res@.len() == n0 && rbits == 64 + k && (r as nat) + hi * p2(64) == u1 / p2(bn * n0)
+                    && u1 / p2(bn * n0) == (r_old as nat) + (cc as nat) * p2(k) && (r_old as nat) < p2(k),
+                valb(res@, bn, res@.len()) == u1 % p2(bn * res@.len()),
+                forall|j: int| 0 <= j < res@.len() ==> (#[trigger] res@[j] as nat) < p2(bn),
+                cc == *c,
+            decreases rbits
+//+}
+        {
+//+{
+            let ghost n = res@.len();
+            let ghost r0s = res@;
+            let ghost tt = u1 / p2(bn * n);
+            let ghost rb = rbits;
+            proof {
+                vstd::arithmetic::power2::lemma2_to64();
+                vstd::arithmetic::power2::lemma_pow2_pos(bn);
+                lemma_take_digit_trunc(tt, r, if rb > 64 { hi } else { 0 }, bits);
+                assert(0 * p2(64) == 0) by (nonlinear_arith);
+                lemma_mod_pow2_split(u1, bn * n, bn);
+                assert(bn * n + bn == bn * (n + 1)) by (nonlinear_arith);
+                vstd::arithmetic::div_mod::lemma_mod_bound(tt as int, p2(bn) as int);
+                if rb > 64 {
+                    lemma_div_skip_low(r_old as nat, cc as nat, k, bn);
+                    vstd::bits::lemma_u64_shr_is_div(cc, ((bits as u64) - (k as u64)) as u64);
+                }
+            }
+//+}
+            res.push((r & mask) as u8);
+            r >>= bits;
+
+            // r had more bits than it could fit - grab the bits we lost
+            if rbits > big_digit::BITS {
+                r = *c >> (big_digit::BITS - (rbits - bits));
+            }
+
+            rbits -= bits;
+//+{
+            proof {
+                let x = r0s.len();
+                lemma_valb_push(r0s, bn, res@[x as int]);
+                assert(res@ =~= r0s.push(res@[x as int]));
+                assert((tt % p2(bn)) * p2(bn * n) == ((u1 / p2(bn * n)) % p2(bn)) * p2(bn * n));
+            }
+//+}
+        }
+//+{
+        proof {
+            // rbits < bits <= 64: the window is exact and below 2^rbits
+            let n = res@.len();
+            assert(bn * n + rbits as nat == 64 * (iv + 1));
+            lemma_valp_bound(data, iv + 1);
+            lemma_pw_p2_(iv + 1);
+            vstd::arithmetic::power2::lemma_pow2_adds(bn * n, rbits as nat);
+            vstd::arithmetic::power2::lemma_pow2_pos(bn * n);
+            lemma_div_upper_(u1, p2(bn * n), p2(rbits as nat));
+        }
+//+}
+    } }
+
+//+{
+    let ghost n = res@.len();
+    let ghost r0s = res@;
+    proof {
+        assert(valp(data, data.len()) == u.v());
+        vstd::arithmetic::power2::lemma2_to64();
+        vstd::arithmetic::power2::lemma_pow2_pos(bn * n);
+        lemma_mod_pow2_split(u.v(), bn * n, rbits as nat);
+        vstd::arithmetic::div_mod::lemma_fundamental_div_mod(u.v() as int, p2(bn * n) as int);
+        if rbits > 0 { vstd::arithmetic::power2::lemma_pow2_strictly_increases(rbits as nat, bn); }
+    }
+//+}
+    if rbits != 0 {
+        res.push(r as u8);
+//+{
+        proof {
+            lemma_valb_push(r0s, bn, res@[n as int]);
+            assert(res@ =~= r0s.push(res@[n as int]));
+            assert(p2(bn * n) * (r as nat) == (r as nat) * p2(bn * n)) by (nonlinear_arith);
+        }
+//+}
+    }
+//+{
+    proof {
+        if rbits == 0 {
+            assert((r as nat) < 1);
+            assert(p2(bn * n) * 0 == 0) by (nonlinear_arith);
+        }
+        assert(valb(res@, bn, res@.len()) == u.v());
+    }
+//+}
+
+    while __last_is_zero(&res)
+//+{
+        invariant valb(res@, bn, res@.len()) == u.v(), forall|j: int| 0 <= j < res@.len() ==> (#[trigger] res@[j] as nat) < p2(bn),
+        decreases res@.len()
+//+}
+    {
+//+{
+        proof { lemma_valb_drop_zero(res@, bn); }
+//+}
+        res.pop();
+    }
+//+{
+    proof { lemma_p2_small(bits); }
+//+}
+
+    res
+}
+//@ end
+
+//@ extract src/biguint/convert.rs :: fn from_inexact_bitwise_digits_le rules=R0,R14,R12m,R10e props=C06,C14
+fn from_inexact_bitwise_digits_le(v: &[u8], bits: u8) -> /*+*/(res: /*-*/BigUint/*+*/)/*-*/
+//+{
+    requires 1 <= bits <= 8, 64int % (bits as int) != 0, forall|i: int| 0 <= i < v@.len() ==> (#[trigger] v@[i] as nat) < p2(bits as nat)
+    ensures res.wf(), res.v() == valb(v@, bits as nat, v@.len())
+//+}
+{
+
+    let total_bits = (v.len() as u64).saturating_mul(bits.into());
+    let big_digits = __cap_hint(total_bits, big_digit::BITS.into());
+    let mut data = Vec::with_capacity(big_digits);
+
+    let mut d = 0;
+    let mut dbits = 0; // number of bits we currently have in d
+//+{
+    let ghost vs = v@;
+    let ghost bn = bits as nat;
+    proof {
+        vstd::arithmetic::power2::lemma2_to64();
+        assert(bits >= 3) by { if bits == 1 { assert(64int % 1 == 0); } if bits == 2 { assert(64int % 2 == 0); } }
+        assert(bn * 0 == 0 && 64 * 0 == 0) by (nonlinear_arith);
+        assert(0nat / 1 == 0 && 0nat % 1 == 0) by (nonlinear_arith);
+    }
+//+}
+
+    // walk v accumululating bits in d; whenever we accumulate big_digit::BITS in d, spit out a
+    // big_digit:
+    { let mut i__ = 0 ; while i__ < v.len()
+//+{
+        invariant
+            vs == v@, 3 <= bits <= 8, bn == bits as nat, i__ <= vs.len(),
+            dbits < 64, dbits as nat + 64 * data@.len() == bn * (i__ as nat),
+            d as nat == valb(vs, bn, i__ as nat) / p2(64 * data@.len()),
+            (d as nat) < p2(dbits as nat),
+            val(data@) == valb(vs, bn, i__ as nat) % p2(64 * data@.len()),
+            forall|i: int| 0 <= i < vs.len() ==> (#[trigger] vs[i] as nat) < p2(bn),
+        decreases vs.len() - i__
+//+}
+    { let c = v[i__] ; i__ += 1 ;
+//+{
+        let ghost jv = (i__ - 1) as nat;
+        let ghost k = dbits as nat;
+        let ghost d_old = d;
+        let ghost m0 = data@.len();
+        let ghost dat0 = data@;
+        let ghost vv = valb(vs, bn, jv);
+        let ghost v1 = valb(vs, bn, jv + 1);
+        let ghost cc = c as u64;
+        let ghost hi: nat = if k == 0 { 0 } else { (cc >> ((64 - dbits) as u64)) as nat };
+        proof {
+            vstd::arithmetic::power2::lemma2_to64();
+            assert(v1 == vv + (c as nat) * p2(bn * jv));
+            assert(bn * jv == 64 * m0 + k);
+            assert(bn * (jv + 1) == bn * jv + bn) by (nonlinear_arith);
+            lemma_add_high(vv, c as nat, 64 * m0, k);
+            if k > 0 {
+                let kk = dbits as u64;
+                vstd::arithmetic::power2::lemma_pow2_strictly_increases(k, 64);
+                assert(1 * p2(kk as nat) <= u64::MAX);
+                vstd::bits::lemma_u64_shl_is_mul(1u64, kk);
+                lemma_shl_digit(cc, kk, d_old);
+                assert((d_old | (cc << kk)) == ((cc << kk) | d_old)) by (bit_vector);
+            } else {
+                assert(d_old == 0);
+                assert(cc << 0u8 == cc) by (bit_vector);
+                assert((0u64 | cc) == cc) by (bit_vector);
+                assert((cc as nat) * 1 == cc as nat) by (nonlinear_arith);
+            }
+            // c < 2^bits: below 64 bits in total nothing is lost
+            vstd::arithmetic::power2::lemma_pow2_adds(k, bn);
+            if k + bn < 64 { vstd::arithmetic::power2::lemma_pow2_strictly_increases(k + bn, 64); }
+            assert((d_old as nat) + (c as nat) * p2(k) < p2(k + bn)) by (nonlinear_arith)
+                requires (d_old as nat) < p2(k), (c as nat) + 1 <= p2(bn), p2(k + bn) == p2(k) * p2(bn);
+        }
+//+}
+        d |= BigDigit::from(c) << dbits;
+        dbits += bits;
+//+{
+        proof {
+            assert((d as nat) + hi * p2(64) == (d_old as nat) + (c as nat) * p2(k));
+            if k + bn < 64 {
+                // no overflow: hi == 0
+                if hi > 0 { assert(hi * p2(64) >= p2(64)) by (nonlinear_arith) requires hi >= 1; assert(false); }
+            }
+        }
+//+}
+
+        if dbits >= big_digit::BITS {
+//+{
+            proof {
+                // the pushed digit is the low 64 bits of v1 / 2^(64 m0); the rest is c >> (64 - k)
+                let tt = v1 / p2(64 * m0);
+                assert(tt == (d as nat) + hi * p2(64));
+                assert(hi * p2(64) == p2(64) * hi) by (nonlinear_arith);
+                vstd::arithmetic::div_mod::lemma_fundamental_div_mod_converse(tt as int, p2(64) as int, hi as int, d as int);
+                lemma_mod_pow2_split(v1, 64 * m0, 64);
+                assert(64 * m0 + 64 == 64 * (m0 + 1));
+                lemma_val_push(dat0, d);
+                lemma_pw_p2_(m0);
+                assert(pw(m0) * (d as nat) == (d as nat) * p2(64 * m0)) by (nonlinear_arith) requires pw(m0) == p2(64 * m0);
+                if k > 0 {
+                    lemma_div_skip_low(d_old as nat, c as nat, k, 64);
+                    vstd::bits::lemma_u64_shr_is_div(cc, (64 - k) as u64);
+                } else {
+                    // k == 0 cannot reach 64 bits with one digit of at most 8 bits
+                    assert(false);
+                }
+                // the new partial digit is below 2^(k + bits - 64)
+                vstd::arithmetic::power2::lemma_pow2_adds((k + bn - 64) as nat, 64);
+                lemma_div_upper_(tt, p2(64), p2((k + bn - 64) as nat));
+            }
+//+}
+            data.push(d);
+            dbits -= big_digit::BITS;
+            // if dbits was > big_digit::BITS, we dropped some of the bits in c (they couldn't fit
+            // in d) - grab the bits we lost here:
+            d = BigDigit::from(c) >> (bits - dbits);
+//+{
+            proof { assert(data@ =~= dat0.push(data@[m0 as int])); }
+//+}
+        }
+    } }
+
+//+{
+    let ghost m = data@.len();
+    let ghost dat0 = data@;
+    proof {
+        vstd::arithmetic::power2::lemma2_to64();
+        let vt = valb(vs, bn, vs.len());
+        vstd::arithmetic::power2::lemma_pow2_pos(64 * m);
+        vstd::arithmetic::div_mod::lemma_fundamental_div_mod(vt as int, p2(64 * m) as int);
+        lemma_val_push(dat0, d);
+        lemma_pw_p2_(m);
+    }
+//+}
+    if dbits > 0 {
+        data.push(d as BigDigit);
+//+{
+        proof { assert(data@ =~= dat0.push(d)); }
+//+}
+    }
+//+{
+    proof {
+        if dbits == 0 { assert((d as nat) < 1); assert(p2(64 * m) * 0 == 0) by (nonlinear_arith); }
+    }
+//+}
 
     biguint_from_vec(data)
 }
